@@ -2766,6 +2766,14 @@ sexp sexp_read_complex_tail (sexp ctx, sexp in, sexp real) {
       default_real = real;
       real = (c=='-') ? SEXP_NEG_ONE : SEXP_ONE;
       goto trailing_i;
+    } else if (c2=='n' || c2=='N') { /* +nan.0i as the imaginary part */
+      res = sexp_read_symbol(ctx, in, c2, 1);
+      if (res == sexp_intern(ctx, "nan.0i", -1)) {
+        res = sexp_make_flonum(ctx, sexp_nan);
+        res = sexp_make_complex(ctx, real, res);
+      } else {
+        res = sexp_read_error(ctx, "invalid complex numeric syntax", sexp_make_character(c2), in);
+      }
     } else {
       sexp_push_char(ctx, c2, in);
       /* read imaginary part */
